@@ -39,8 +39,10 @@ class ExonCorrector:
             corrected_exons += [(new_introns[-1][1] + 1, read_region[1])]
         else:
             corrected_exons = [(read_region[0], read_region[1])]
-        if any(e[0] > e[1] for e in corrected_exons):
-            # a splice site was moved beyond the end of a tiny terminal exon: the correction is not applicable
+        if any(e[0] > e[1] for e in corrected_exons) or \
+                any(corrected_exons[i][1] >= corrected_exons[i + 1][0] for i in range(len(corrected_exons) - 1)):
+            # a splice site was moved beyond the end of a tiny terminal exon, or only one site of a tiny intron was moved
+            # (beyond its other site): the correction is not applicable
             return alignment_info.read_exons
         return corrected_exons
 
